@@ -25,6 +25,8 @@ def transAtSubtype : String := "Trans-AT-KS"
 def transAtDocking : String := "Trans-AT_docking"
 def iterativeSubtype : String := "Iterative-KS"
 def terminationLabels : List String := ["Thioesterase", "TD"]
+/-- the finalising domains `Module.end` does not count into the module's extent -/
+def endTrimLabels : List String := ["TD", "Thioesterase"]
 def starterModuleLabels : List String := ["CAL_domain", "Condensation_Starter", "SAT"]
 def transAtKrLabel : String := "PKS_KR"
 def trailingKrLabel : String := "PKS_KR"
